@@ -30,7 +30,7 @@ def show_op(op):
     return '%s(%s)' % (op[0], ', '.join(repr(x) for x in op[1:]))
 
 class Node:
-    __slots__ = ('h', 'kind', 'name', 'data', 'p', 'c', 'f', 'l', 'pv', 'nx', 'k', 'a', 'n', 'ow', 'm')
+    __slots__ = ('h', 'kind', 'name', 'data', 'p', 'c', 'f', 'l', 'pv', 'nx', 'k', 'a', 'n', 'ow', 'm', 'mf')
     def __repr__(self):
         return 'Node(%s %s %r p=%s c=%s k=%s)' % (self.h, self.kind, self.name, self.p, self.c, self.k)
 
@@ -75,7 +75,7 @@ class Rec:
             n = Node()
             h, _, kind = f[0].partition('=')
             n.h, n.kind, n.name, n.data = int(h), kind, f[1], f[2]
-            n.a = n.n = n.m = None; n.ow = None
+            n.a = n.n = n.m = None; n.ow = None; n.mf = None
             for x in f[3:]:
                 key, _, v = x.partition('=')
                 if key == 'p': n.p = _h(v)
@@ -90,6 +90,8 @@ class Rec:
                 elif key == 'ow': n.ow = _h(v)
                 elif key == 'm':
                     n.m = [] if v == '-' else [tuple(_h(y) for y in it.split(':')) for it in v.split(';')]
+                elif key == 'mf':
+                    n.mf = tuple(_h(y) for y in v.split(':'))
             self.nodes[n.h] = n
 
 def parse_line(line):
@@ -219,6 +221,8 @@ def c12_violations(rec):
             got = [it[0] for it in n.m]
             if got != want:
                 v.append(('merged-list', 'element %d: merged child list %s, raw list gives %s' % (n.h, got, want)))
+            if n.mf is not None and (n.mf[0] != (got[0] if got else None) or n.mf[1] != (got[-1] if got else None)):
+                v.append(('merged-first-last', 'element %d: first_child / last_child in the merged-text view = %s / %s, merged child list %s' % (n.h, n.mf[0], n.mf[1], got)))
             else:
                 for i, it in enumerate(n.m):
                     wp = n.h
